@@ -263,7 +263,7 @@ func TestCheck(t *testing.T) {
 	defer r.Finish()
 	ns := []int{1, 4, 8}
 	if r.Thorough() {
-		ns = []int{1, 2, 4, 8, 16}
+		ns = []int{1, 2, 4, 8, 16, 32}
 	}
 	if r.Replay != nil {
 		var c Case
